@@ -79,13 +79,18 @@ def run(db, cx):
     for f in fs:
         relax = [(b, i) for (b, i, ev) in f.calls(C + "AtomicRelaxation::operator()")]
         cx.require(relax, "LivermorePE no longer samples atomic relaxation")
-        shr = [(b, i, ev) for (b, i, ev) in f.events()
-               if ev["e"] in ("write", "def") and (ev.get("var") == "secondaries"
-                                                   or ev.get("lhs") == "secondaries")
-               and "count" in ev.get("rhs", "") and "outgoing" in ev.get("refs", [])]
         attach = [(b, i, ev) for (b, i, ev) in f.events("write")
                   if path_leaf(ev.get("path")) == C + "Interaction::secondaries"]
         cx.require(attach, "LivermorePE no longer attaches secondaries to the result")
+        span_vars = set()
+        for (_b, _i, ev) in attach:
+            span_vars |= local_refs(ev.get("refs", []))
+        relax_vars = set(ev.get("var") for (_b, _i, ev) in f.events("def")
+                         if C + "AtomicRelaxation::operator()" in ev.get("calls", []))
+        shr = [(b, i, ev) for (b, i, ev) in f.events()
+               if ev["e"] in ("write", "def") and (ev.get("var") in span_vars
+                                                   or ev.get("lhs") in span_vars)
+               and relax_vars & set(ev.get("refs", []))]
         ok = bool(shr)
         for (rb, ri) in relax:
             for (ab, ai, _e) in attach:
